@@ -32,8 +32,21 @@ def rule_Y3(ctx) -> None:
     base = mod.cls("TypingCompiler")
     abstract = [b.name for b in base.body if isinstance(b, ast.FunctionDef) and any("abstractmethod" in ast.unparse(d) for d in b.decorator_list)]
     ctx.floor("Y3", "abstract methods", len(abstract), 8)
+    def all_methods(cname: str):
+        """the methods of the class, own ones first, then those inherited from base classes of this module other than the interface"""
+        out, chain, seen = {}, [cname], set()
+        while chain:
+            c_ = chain.pop(0)
+            if c_ in seen or c_ == "TypingCompiler" or c_ not in mod.defs:
+                continue
+            seen.add(c_)
+            for k_, v_ in mod.methods(c_).items():
+                out.setdefault(k_, v_)
+            chain += [b_.id for b_ in getattr(mod.defs[c_][0], "bases", []) if isinstance(b_, ast.Name)]
+        return out
+
     for key, cname in shapes.COMPILERS.items():
-        meths = mod.methods(cname)
+        meths = all_methods(cname)
         for m in abstract:
             name = f"{cname}.{m}"
             if m not in meths:
